@@ -292,8 +292,24 @@ def main(argv: Optional[List[str]] = None) -> int:
     unk = [(k, ob) for k, ob in enumerate(allobs) if ob['status'] == 'unknown' and ob.get('smt2')]
     if unk:
         budget = 60.0 if tier == 'thorough' else 20.0
+        # The portfolio phase has a wall-clock budget of its own (PYVC_PORTFOLIO_BUDGET_S; default 300 s quick / 1800 s thorough): a change to
+        # the subject can turn hundreds of obligations `unknown` at once (seen: a refactored parse_host kept one check busy for over half an hour).
+        # Obligations not reached within the budget STAY unknown -- never a verdict, the run then ends UNDECIDED unless something is refuted.
+        import time as _time
+        deadline = _time.time() + float(os.environ.get('PYVC_PORTFOLIO_BUDGET_S', '1800' if tier == 'thorough' else '300'))
         with mp.get_context('fork').Pool(min(16, len(unk))) as pool:
-            for k, st, be, secs, raw in pool.imap_unordered(_solve_worker, [(k, ob['smt2'], budget) for k, ob in unk]):
+            it = pool.imap_unordered(_solve_worker, [(k, ob['smt2'], budget) for k, ob in unk])
+            while True:
+                try:
+                    if _time.time() > deadline:
+                        raise mp.TimeoutError()
+                    k, st, be, secs, raw = it.next(timeout=max(0.5, deadline - _time.time()))
+                except StopIteration:
+                    break
+                except mp.TimeoutError:
+                    pool.terminate()
+                    _STATE['portfolio_cut'] = True
+                    break
                 ob = allobs[k]
                 ob['seconds'] += secs
                 ob['solver_raw'] = raw
